@@ -262,7 +262,7 @@ def gen_items(rng, decls, toks, depth=0, nitems=None, fancy=True, used_titles=No
         elif d.typ == 'func':
             toks.append(['name', name if word_ok(name) else spell_string(rng, name, fancy), name])
             toks.append(['(', '(', None])
-            na = rng.randint(0, 3)
+            na = rng.randint(0, 3) if rng.random() < 0.95 else rng.choice([15, 16, 17, 18, 33, 70])      # (also across the argument vector's growth steps)
             for i in range(na):
                 if i:
                     toks.append([',', ',', None])
